@@ -6,6 +6,7 @@
 #include <stdint.h>
 #include <stdlib.h>
 #include <string.h>
+#include <math.h>
 #include "a/trajtrap.h"
 #include "a/trajbell.h"
 #include "num.h"
@@ -176,6 +177,47 @@ int main(int argc, char **argv)
             }
             else { ++n_zero[1]; }
             fputs("}\n", f);
+        }
+    }
+    /* requests whose phases differ by many orders of magnitude (a final blend shorter than the rounding of the total
+       duration, tiny moves, huge moves): only the boundary facts are judged - before the start the planner holds
+       (p0, recorded v0), at and after the reported end (p1, recorded v1) - as order-coded doubles, exactly */
+    {
+        static double const far[][7] = {
+            {2, 2, -1e4, 0, 1e13, 0, 1}, {2, 1e4, -2, 0, 1e13, 1, 0}, {2, -2, 1e4, 0, -1e13, 0, -1}, {3, 5e5, -7e5, 1, 4e15, 2, 1},
+            {2, 2, -2, 0, 1e-9, 0, 0}, {1e-3, 1e3, -1e3, 0, 1e9, 0, 1e-4}, {1e6, 1e-3, -1e-3, 0, 1e3, 0, 0}, {5, 1, -1e8, 0, 1e12, 0, 4},
+        };
+        for (size_t k = 0; k < sizeof(far) / sizeof(far[0]); ++k)
+        {
+            for (int which = 0; which < 2; ++which)
+            {
+                double const *r = far[k];
+                a_trajtrap c; a_trajbell b;
+                memset(&c, 0, sizeof(c)); memset(&b, 0, sizeof(b));
+                double t = which == 0 ? (double)a_trajtrap_gen(&c, (a_real)r[0], (a_real)r[1], (a_real)r[2], (a_real)r[3], (a_real)r[4], (a_real)r[5], (a_real)r[6])
+                                      : (double)a_trajbell_gen(&b, (a_real)(10 * fabs(r[1])), (a_real)fabs(r[1]), (a_real)r[0], (a_real)r[3], (a_real)r[4], (a_real)r[5], (a_real)r[6]);
+                FILE *f = out();
+                fprintf(f, "{\"f\":\"%s\",\"planned\":%d,\"k\":%d", which == 0 ? "trapfar" : "bellfar", t > 0, (int)k);
+                if (t > 0)
+                {
+                    double xs[6] = {-1, 0, t, nextafter(t, 1e300), 2 * t, 1e300};
+                    fputs(",\"p0\":", f); put_ordered(f, r[3]);
+                    fputs(",\"p1\":", f); put_ordered(f, r[4]);
+                    fputs(",\"v0\":", f); put_ordered(f, which == 0 ? (double)c.v0 : (double)b.v0);
+                    fputs(",\"v1\":", f); put_ordered(f, which == 0 ? (double)c.v1 : (double)b.v1);
+                    fputs(",\"samples\":[", f);
+                    for (int i = 0; i < 6; ++i)
+                    {
+                        fprintf(f, i ? ",{\"after\":%d,\"p\":" : "{\"after\":%d,\"p\":", i >= 2);
+                        put_ordered(f, which == 0 ? (double)a_trajtrap_pos(&c, (a_real)xs[i]) : (double)a_trajbell_pos(&b, (a_real)xs[i]));
+                        fputs(",\"v\":", f);
+                        put_ordered(f, which == 0 ? (double)a_trajtrap_vel(&c, (a_real)xs[i]) : (double)a_trajbell_vel(&b, (a_real)xs[i]));
+                        fputc('}', f);
+                    }
+                    fputs("]", f);
+                }
+                fputs("}\n", f);
+            }
         }
     }
     for (int i = 0; i < nb; ++i) { fclose(fo[i]); }
